@@ -186,7 +186,7 @@ impl Iterator for OsuGradualDifficulty {
     fn nth(&mut self, n: usize) -> Option<Self::Item> {
         let skip_iter = self.diff_objects.iter().skip(self.idx.saturating_sub(1));
 
-        let mut take = cmp::min(n, self.len().saturating_sub(1));
+        let mut take = cmp::min(n, self.len());
 
         // The first note has no difficulty object
         if self.idx == 0 && take > 0 {
